@@ -274,7 +274,7 @@ def main():
          ("[" + '; '.join(coq_bytes(x) for x in sorted(keys)) + "]") if keys else None)
 
     # C20: interior mutability / non-Send/Sync ingredients in the library sources
-    pat = re.compile(r'\b(Cell|RefCell|OnceCell|Mutex|RwLock|Atomic[A-Z][A-Za-z0-9]*|Rc|UnsafeCell|thread_local|static\s+mut)\b')
+    pat = re.compile(r'\b(Cell|RefCell|OnceCell|OnceLock|LazyCell|LazyLock|Lazy|Mutex|RwLock|Condvar|Atomic[A-Z][A-Za-z0-9]*|Rc|UnsafeCell|thread_local|static\s+mut)\b')
     hits = []
     for name, src in (("mapper.rs", mapper), ("cache/raw.rs", raw), ("cache/mod.rs", cmod),
                       ("mapping.rs", mapping), ("stacktrace.rs", stack), ("java.rs", java)):
